@@ -115,8 +115,10 @@ func (p *resultsPrinter) PrintResults(matchingNodes *list.List) error {
 
 		var destination io.Writer = writer
 		tempBuffer := bytes.NewBuffer(nil)
+		// encoders that buffer (csv, xml) share a *bufio.Writer they are handed and leave the flushing to us
+		tempWriter := bufio.NewWriter(tempBuffer)
 		if p.nulSepOutput {
-			destination = tempBuffer
+			destination = tempWriter
 		}
 
 		if err := p.encoder.PrintLeadingContent(destination, mappedDoc.LeadingContent); err != nil {
@@ -128,6 +130,9 @@ func (p *resultsPrinter) PrintResults(matchingNodes *list.List) error {
 		}
 
 		if p.nulSepOutput {
+			if err := tempWriter.Flush(); err != nil {
+				return err
+			}
 			removeLastEOL(tempBuffer)
 			tempBufferBytes := tempBuffer.Bytes()
 			if bytes.IndexByte(tempBufferBytes, 0) != -1 {
